@@ -38,6 +38,14 @@ pub open spec fn cmp_not_greater<T, F: FnMut(&T, &T) -> std::cmp::Ordering>(f: F
     exists|o: std::cmp::Ordering| call_ensures(f, (&a, &b), o) && !(o is Greater)
 }
 
+/// the result of sorting s by the total preorder le: std's (stable) sort is a function of the input sequence and the order
+pub uninterp spec fn sorted_seq<T>(s: Seq<T>, le: spec_fn(T, T) -> bool) -> Seq<T>;
+
+/// the comparator f decides "not Greater" exactly as le does
+pub open spec fn cmp_matches<T, F: FnMut(&T, &T) -> std::cmp::Ordering>(f: F, le: spec_fn(T, T) -> bool) -> bool {
+    forall|a: T, b: T, o: std::cmp::Ordering| call_ensures(f, (&a, &b), o) ==> (!(o is Greater)) == le(a, b)
+}
+
 /// <[T]>::sort_by: a permutation of the input in which no earlier element compares Greater than a later one
 /// (stability is not specified: the comparators used are total orders over distinct document ids)
 pub assume_specification<T, F: FnMut(&T, &T) -> std::cmp::Ordering> [<[T]>::sort_by] (v: &mut [T], f: F)
@@ -46,7 +54,8 @@ pub assume_specification<T, F: FnMut(&T, &T) -> std::cmp::Ordering> [<[T]>::sort
     ensures
         final(v)@.to_multiset() == old(v)@.to_multiset(),
         final(v)@.len() == old(v)@.len(),
-        forall|i: int, j: int| 0 <= i < j < final(v)@.len() ==> cmp_not_greater(f, #[trigger] final(v)@[i], #[trigger] final(v)@[j]);
+        forall|i: int, j: int| 0 <= i < j < final(v)@.len() ==> cmp_not_greater(f, #[trigger] final(v)@[i], #[trigger] final(v)@[j]),
+        forall|le: spec_fn(T, T) -> bool| cmp_matches(f, le) ==> final(v)@ == #[trigger] sorted_seq(old(v)@, le);
 
 /// <[u32]>::to_vec copies the elements (stated for Copy element types via the view equality)
 pub assume_specification<T: Clone> [<[T]>::to_vec] (s: &[T]) -> (r: Vec<T>)
@@ -61,6 +70,14 @@ pub assume_specification<T, A: Allocator> [std::collections::VecDeque::<T, A>::i
 
 pub mod trusted_axioms {
     use super::*;
+
+    /// A4: a real `str` never holds more than isize::MAX bytes
+    #[verifier::external_body]
+    pub broadcast proof fn axiom_str_len_fits(s: &str)
+        ensures
+            #[trigger] s.spec_bytes().len() <= usize::MAX,
+    {
+    }
 
     /// A4: `String` hashes and compares consistently (vstd ships this axiom for the integer types only)
     #[verifier::external_body]
